@@ -30,6 +30,16 @@ func newExampleBuilder(types map[string]internalSchema.Type) *exampleBuilder {
 }
 
 func (b *exampleBuilder) Build(node internalSchema.Node) ([]byte, error) {
+	ex, err := b.build(node)
+	if ex != nil {
+		// The bytes may belong to a pooled buffer which is reused as soon as
+		// the builder returns: hand out a copy.
+		ex = append([]byte(nil), ex...)
+	}
+	return ex, err
+}
+
+func (b *exampleBuilder) build(node internalSchema.Node) ([]byte, error) {
 	switch typedNode := node.(type) {
 	case *internalSchema.ObjectNode:
 		return b.buildExampleForObjectNode(typedNode)
